@@ -481,6 +481,7 @@ type Clause struct {
 	Labels []string // e.g. C09.pad
 	Src    string
 	E      Expr
+	Try    bool // attempted only in the thorough tier, never claimed
 	Loop   int // loop ordinal for invariant/decreases
 	Line   int
 	File   string
@@ -782,11 +783,14 @@ func (cs *ContractSet) loadFile(path string) error {
 		switch kw {
 		case "props":
 			cur.Props = strings.Fields(rest)
-		case "requires", "ensures":
+		case "requires", "ensures", "tryensures":
 			if err := finishClause(i); err != nil {
 				return err
 			}
 			c := &Clause{Kind: kw, Labels: labels, Src: rest, Line: i + 1, File: path}
+			if kw == "tryensures" {
+				c.Try = true
+			}
 			if kw == "requires" {
 				cur.Requires = append(cur.Requires, c)
 			} else {
@@ -955,7 +959,7 @@ func (cs *ContractSet) loadFile(path string) error {
 			lastClause.Src += " " + body
 		}
 		if kw != "assigns" {
-			if _, isKw := map[string]bool{"props": true, "requires": true, "ensures": true, "alloc_bound": true, "site": true, "loop": true, "inline": true, "pure": true, "trusted": true, "noverify": true, "may_panic": true, "callback": true, "ghostparam": true, "implements": true, "cbinv": true, "ghostset": true, "ghostinit": true, "ghostarg": true}[kw]; isKw {
+			if _, isKw := map[string]bool{"props": true, "requires": true, "ensures": true, "tryensures": true, "alloc_bound": true, "site": true, "loop": true, "inline": true, "pure": true, "trusted": true, "noverify": true, "may_panic": true, "callback": true, "ghostparam": true, "implements": true, "cbinv": true, "ghostset": true, "ghostinit": true, "ghostarg": true}[kw]; isKw {
 				inAssigns = false
 			}
 		}
